@@ -211,7 +211,7 @@ def gen_cli(draw):
             'indent': draw(st.sampled_from([None, None, 0, 1, 2, 4, 8])),
             'scalar': draw(st.sampled_from([False, False, True])),
             'raw_path': draw(st.booleans()),
-            'malform': draw(st.sampled_from([None] * 8 + ['truncate', 'wrong-format', 'missing-file']))}
+            'malform': draw(st.sampled_from([None] * 8 + ['truncate', 'wrong-format', 'missing-file', 'construct-error']))}
 
 
 def make_invocation(recipe, tmp):
@@ -228,6 +228,10 @@ def make_invocation(recipe, tmp):
     malform = recipe['malform']
     if malform == 'truncate':
         target_text = {'json': '{"a": [1, 2', 'python': "{'a': [1, 2", 'yaml': '{a: [1, 2', 'toml': 'a = [1, 2'}[recipe['tformat']]
+    elif malform == 'construct-error':
+        # syntactically fine, but the loader fails while constructing the value (not its nominal parse error)
+        target_text = {'json': '{"a": 1e999999, "b": [1, 2', 'python': "{'a': {[1, 2]: 3}}", 'yaml': 'a: 2001-13-45',
+                       'toml': 'a = 1\na = 2'}[recipe['tformat']]
     elif malform == 'wrong-format':
         # text that is well-formed in another format but not in this one
         target_text = {'json': 'a = 1', 'python': 'a = 1', 'yaml': 'a: b: [c', 'toml': '{"a": 1}'}[recipe['tformat']]
